@@ -355,6 +355,8 @@ fn judge_image(case: &Case, image: &Path, k: usize, last_kind: &str, variant: &'
             found.push(("restart_succeeds", "root_login_failed".into(), "root cannot log in after recovery".into()));
             return found;
         };
+        // what each partition serves after recovery and the probe send: a second restart must serve the same
+        let mut served: Vec<((u32, u32, u32), Vec<(u64, u128)>)> = Vec::new();
         // every partition both the pre- and the post-model have must exist and expose a consistent prefix
         for s in post.streams.values() {
             for t in s.topics.values() {
@@ -440,6 +442,7 @@ fn judge_image(case: &Case, image: &Path, k: usize, last_kind: &str, variant: &'
                     let probe = MsgSpec { id: 900_000 + p.id as u128 + ((t.id as u128) << 8), salt: 77, len: 12, headers: 0 };
                     let mut messages = vec![probe.to_message()];
                     let sent = client.send_messages(&sid, &tid, &Partitioning::partition_id(p.id), &mut messages).await;
+                    let sent_ok = sent.is_ok();
                     // under no-wait confirmation the batch may still be on its way to the file (that window is
                     // C12's subject): look once the background writer is idle
                     w.sim.settle().await;
@@ -463,6 +466,27 @@ fn judge_image(case: &Case, image: &Path, k: usize, last_kind: &str, variant: &'
                             }
                         }
                     }
+                    // a second, larger batch, forced to the file: reads by offset inside it go through the index
+                    if sent_ok {
+                        let second: Vec<MsgSpec> = (0..3u128).map(|i| MsgSpec { id: 910_000 + i + ((p.id as u128) << 8) + ((t.id as u128) << 16), salt: 78, len: 12, headers: 0 }).collect();
+                        let mut messages: Vec<iggy::messages::send_messages::Message> = second.iter().map(|m| m.to_message()).collect();
+                        if client.send_messages(&sid, &tid, &Partitioning::partition_id(p.id), &mut messages).await.is_ok() {
+                            let _ = client.flush_unsaved_buffer(&sid, &tid, p.id, false).await;
+                            w.sim.settle().await;
+                            let from = next + 2;
+                            match client.poll_messages(&sid, &tid, Some(p.id), &Consumer::default(), &PollingStrategy::offset(from), 2, false).await {
+                                Ok(a) if a.messages.len() == 2 && a.messages[0].offset == from && a.messages[0].id == second[1].id && a.messages[1].id == second[2].id => {}
+                                Ok(a) => {
+                                    let got: Vec<(u64, u128)> = a.messages.iter().map(|m| (m.offset, m.id)).collect();
+                                    found.push(("post_recovery_send_continues", "later_messages_unreadable".into(), format!("partition {}/{}/{}: messages sent after recovery were acknowledged at offsets {}..={}, a poll from {from} gives {got:?}", s.id, t.id, p.id, next + 1, next + 3)));
+                                }
+                                Err(e) => found.push(("post_recovery_send_continues", "poll_error".into(), format!("poll after the second post-recovery send failed: {e:?}"))),
+                            }
+                        }
+                    }
+                    if let Ok(all) = client.poll_messages(&sid, &tid, Some(p.id), &Consumer::default(), &PollingStrategy::offset(0), 100_000, false).await {
+                        served.push(((s.id, t.id, p.id), all.messages.iter().map(|m| (m.offset, m.id)).collect()));
+                    }
                     // consumer offsets: a value that was stored (before or by the operation in flight), or absent
                     for (key, value) in &p.consumer_offsets {
                         let got = client.get_consumer_offset(&Consumer::new(IdRef::Num(*key).to_identifier()), &sid, &tid, Some(p.id)).await.ok().flatten().map(|i| i.stored_offset);
@@ -479,6 +503,23 @@ fn judge_image(case: &Case, image: &Path, k: usize, last_kind: &str, variant: &'
         // a second (clean) restart must agree
         if w.restart(StopKind::GracefulDrained).await.is_err() {
             found.push(("second_restart_succeeds", "init_error".into(), "the restart after recovery failed".into()));
+        }
+        else if let Ok(client) = w.root_client().await {
+            for ((sid, tid, pid), before) in &served {
+                let polled = client.poll_messages(&IdRef::Num(*sid).to_identifier(), &IdRef::Num(*tid).to_identifier(), Some(*pid), &Consumer::default(), &PollingStrategy::offset(0), 100_000, false).await;
+                match polled {
+                    Ok(polled) => {
+                        let after: Vec<(u64, u128)> = polled.messages.iter().map(|m| (m.offset, m.id)).collect();
+                        if &after != before {
+                            let offsets_before: Vec<u64> = before.iter().map(|x| x.0).collect();
+                            let offsets_after: Vec<u64> = after.iter().map(|x| x.0).collect();
+                            found.push(("second_restart_serves_the_same", if after.len() < before.len() { "messages_lost".into() } else { "messages_changed".into() }, format!("partition {sid}/{tid}/{pid}: after recovery (and one more send) it served {}, after one more clean restart {}", crate::harness::brief(&offsets_before), crate::harness::brief(&offsets_after))));
+                        }
+                    }
+                    Err(e) => found.push(("second_restart_serves_the_same", "poll_error".into(), format!("partition {sid}/{tid}/{pid} cannot be read after the second restart: {e:?}"))),
+                }
+            }
+            drop(client);
         }
         for p in w.sim.take_panics() {
             found.push(("recovery_never_panics", crate::harness::panic_tag(&p), format!("panic after recovery: {}", p.chars().take(200).collect::<String>())));
